@@ -185,10 +185,90 @@ theorem wedge_parallel_real {a b : Geonum ℝ} (ha : a.angle.Inv) (hb : b.angle.
   simp only [zero_add, Real.sin_zero, sub_zero] at this
   linarith
 
+/-- (E) **anticommutation**: swapping the operands keeps the magnitude (to within two snap tolerances) and — when the operands are
+    not within tolerance of parallel — turns the result by exactly two blades -/
+theorem wedge_anticomm_real {a b : Geonum ℝ} (ha : a.angle.Inv) (hb : b.angle.Inv) (h0a : 0 ≤ a.mag) (h0b : 0 ≤ b.mag)
+    (hsep : 1 / 10 ^ 10 + 1 / 10 ^ 15 < |Real.sin (T b.angle - T a.angle)|) :
+    |(a.wedge b).mag - (b.wedge a).mag| ≤ 2 * (a.mag * b.mag * (1 / 10 ^ 10 + 1 / 10 ^ 15)) ∧
+    ((a.wedge b).angle.blade = (b.wedge a).angle.blade + 2 ∨ (b.wedge a).angle.blade = (a.wedge b).angle.blade + 2) := by
+  obtain ⟨δ, hδ, hcosd, hsind⟩ := cos_sub_gradeAngle ha hb
+  obtain ⟨δ', hδ', _, hsind'⟩ := cos_sub_gradeAngle hb ha
+  set θ := T b.angle - T a.angle with hθ
+  have hrev : T a.angle - T b.angle = -θ := by rw [hθ]; ring
+  rw [hrev] at hsind'
+  have hl1 := sin_lipschitz θ δ
+  have hl2 := sin_lipschitz (-θ) δ'
+  rw [Real.sin_neg] at hl2
+  have hm1 : (a.wedge b).mag = a.mag * b.mag * |Real.sin (θ + δ)| := by rw [← hsind]; rfl
+  have hm2 : (b.wedge a).mag = b.mag * a.mag * |Real.sin (-θ + δ')| := by rw [← hsind']; rfl
+  constructor
+  · rw [hm1, hm2]
+    have e : a.mag * b.mag * |Real.sin (θ + δ)| - b.mag * a.mag * |Real.sin (-θ + δ')|
+        = a.mag * b.mag * (|Real.sin (θ + δ)| - |Real.sin (-θ + δ')|) := by ring
+    rw [e, abs_mul, abs_of_nonneg (mul_nonneg h0a h0b)]
+    have hd : |(|Real.sin (θ + δ)| - |Real.sin (-θ + δ')|)| ≤ 2 * (1 / 10 ^ 10 + 1 / 10 ^ 15) := by
+      have t1 : |(|Real.sin (θ + δ)| - |Real.sin θ|)| ≤ 1 / 10 ^ 10 + 1 / 10 ^ 15 :=
+        le_trans (abs_abs_sub_abs_le_abs_sub _ _) (le_trans hl1 (le_of_lt hδ))
+      have t2 : |(|Real.sin (-θ + δ')| - |Real.sin θ|)| ≤ 1 / 10 ^ 10 + 1 / 10 ^ 15 := by
+        have : |Real.sin θ| = |-Real.sin θ| := (abs_neg _).symm
+        rw [this]
+        exact le_trans (abs_abs_sub_abs_le_abs_sub _ _) (le_trans hl2 (le_of_lt hδ'))
+      rw [abs_le] at t1 t2 ⊢
+      constructor <;> linarith [t1.1, t1.2, t2.1, t2.2]
+    calc a.mag * b.mag * |(|Real.sin (θ + δ)| - |Real.sin (-θ + δ')|)|
+        ≤ a.mag * b.mag * (2 * (1 / 10 ^ 10 + 1 / 10 ^ 15)) := mul_le_mul_of_nonneg_left hd (mul_nonneg h0a h0b)
+      _ = 2 * (a.mag * b.mag * (1 / 10 ^ 10 + 1 / 10 ^ 15)) := by ring
+  · -- signs of the two computed sines are strictly opposite
+    have ws1 := wedge_structure a b
+    have ws2 := wedge_structure b a
+    simp only at ws1 ws2
+    have hcomm : b.angle.geometricAdd a.angle = a.angle.geometricAdd b.angle := by
+      unfold geometricAdd
+      simp only [fadd_comm (F := ℝ) (a := b.angle.rem) (b := a.angle.rem) trivial trivial, Nat.add_comm b.angle.blade a.angle.blade]
+    obtain ⟨hi, _, _⟩ := geometricAdd_spec ha hb
+    have hq := add_whole (z := Angle.new (one : ℝ) two) hi (by rw [new_one_two]; exact fin_zero) (by rw [new_one_two]; exact val_zero)
+    have hqi : ((a.angle.geometricAdd b.angle).geometricAdd (Angle.new (one : ℝ) two)).Inv := inv_of_spec hi hq.2
+    obtain ⟨hb1, hf1, _, hv1⟩ := new_one_one (F := ℝ)
+    simp only at hb1 hv1; rw [val_zero] at hv1
+    have hp := add_whole hqi hf1 hv1
+    rw [hb1] at hp
+    have hs1 : FloatLike.sin (b.angle.sub a.angle).gradeAngle = Real.sin (θ + δ) := hsind
+    have hs2 : FloatLike.sin (a.angle.sub b.angle).gradeAngle = Real.sin (-θ + δ') := hsind'
+    rw [abs_le] at hl1 hl2
+    rw [abs_lt] at hδ hδ'
+    rcases le_or_gt 0 (Real.sin θ) with hpos | hneg
+    · rw [abs_of_nonneg hpos] at hsep
+      have hpos1 : ¬ Real.sin (θ + δ) < 0 := by
+        have : |δ| < 1 / 10 ^ 10 + 1 / 10 ^ 15 := by rw [abs_lt]; exact hδ
+        linarith [hl1.1]
+      have hneg2 : Real.sin (-θ + δ') < 0 := by
+        have : |δ'| < 1 / 10 ^ 10 + 1 / 10 ^ 15 := by rw [abs_lt]; exact hδ'
+        linarith [hl2.2]
+      have f1 : flt (FloatLike.sin (b.angle.sub a.angle).gradeAngle) (zero : ℝ) = false := by
+        rw [hs1, r_lt, lit_real.1]; simpa using hpos1
+      have f2 : flt (FloatLike.sin (a.angle.sub b.angle).gradeAngle) (zero : ℝ) = true := by
+        rw [hs2, r_lt, lit_real.1]; simpa using hneg2
+      right
+      rw [ws1.2.1 f1, ws2.2.2 f2, hcomm, hp.1]
+    · rw [abs_of_neg hneg] at hsep
+      have hneg1 : Real.sin (θ + δ) < 0 := by
+        have : |δ| < 1 / 10 ^ 10 + 1 / 10 ^ 15 := by rw [abs_lt]; exact hδ
+        linarith [hl1.2]
+      have hpos2 : ¬ Real.sin (-θ + δ') < 0 := by
+        have : |δ'| < 1 / 10 ^ 10 + 1 / 10 ^ 15 := by rw [abs_lt]; exact hδ'
+        linarith [hl2.1]
+      have f1 : flt (FloatLike.sin (b.angle.sub a.angle).gradeAngle) (zero : ℝ) = true := by
+        rw [hs1, r_lt, lit_real.1]; simpa using hneg1
+      have f2 : flt (FloatLike.sin (a.angle.sub b.angle).gradeAngle) (zero : ℝ) = false := by
+        rw [hs2, r_lt, lit_real.1]; simpa using hpos2
+      left
+      rw [ws1.2.2 f1, ws2.2.1 f2, hcomm, hp.1]
+
 end E
 
-/-! PARTIAL (not yet proved): anticommutation (swap keeps the magnitude up to the slack and moves the blade by exactly two).
-    Explored by `oracle.C10.wedge`. -/
+/-! (all clauses of C10 now have a theorem; the float anticommutation is explored by `oracle.C10.wedge`) -/
+
+
 
 example {F : Type} [FloatSpec F] : (⟨zero, 2⟩ : Angle F).Inv := inv_zero 2
 
